@@ -494,6 +494,94 @@ def gen_be_cases(seed, tiername, tag, count, n):
     return cases
 
 
+SIG_KINDS = {"rs": ["rd", "rb", "dl", "re", "re", "pr"], "v": ["rd", "rb", "dl", "ex", "px"], "s": ["rd", "rb", "dl"]}
+
+
+def gen_sig_case(rng, cid, n, sig, tokens=None, digits0=None, ready_p=None, w=None, pause=None):
+    """Other stream signatures: rs = RsPacketStream (Ready, Sop, Eop; valid() derived), v = VPacketStream (no back pressure),
+    s = SPacketStream.  Stage kinds: what the library accepts for the signature (regReady / regDecouple / fifo / stall do not
+    compile without a Valid signal; widthExtend on a stream without Valid cannot express the gaps it needs; after Packet.h
+    widthReduce the sop registers of later stages have no reset value, so pr is only generated as the last stage)."""
+    if tokens is None:
+        for _ in range(200):
+            depth = rng.choice([1, 1, 2, 2, 3, 4])
+            digits0 = rng.choice([1, 2, 2, 3, 4, 6])
+            digits = digits0; toks = []; ok = True
+            for i in range(depth):
+                k = rng.choice(SIG_KINDS[sig])
+                if k == "dl":
+                    toks.append(f"dl{rng.choice([0, 1, 2, 3])}")
+                elif k in ("re", "pr"):
+                    divs = [r for r in (2, 3, 4, 6) if digits % r == 0]
+                    if not divs or (k == "pr" and i != depth - 1):
+                        ok = False; break
+                    r = rng.choice(divs); digits //= r; toks.append(f"{k}{r}")
+                elif k in ("ex", "px"):
+                    r = rng.choice([2, 2, 3, 4])
+                    if digits * r > 12:
+                        ok = False; break
+                    digits *= r; toks.append(f"{k}{r}")
+                else:
+                    toks.append(k)
+            if ok and not chain_info(parse_chain(",".join(toks), digits0), True, True)["x_poison"]:
+                break
+        else:
+            toks, digits0 = ["rd"], 1
+    else:
+        toks = list(tokens)
+    w = w or rng.choice([3, 4, 8]); mw = 3
+    stages = parse_chain(",".join(toks), digits0)
+    cap = chain_info(stages, True, True)["cap"]
+    drain = min(n // 2, max(DRAIN, 2 * cap + 12))
+    body = n - drain
+    ready_p = ready_p if ready_p is not None else rng.choice([1.0, 1.0, 0.9, 0.6, 0.6, 0.25])
+    r = [1 if rng.random() < ready_p else 0 for _ in range(body)] if sig == "rs" else [1] * body
+    pause = pause or rng.choice(["none", "between", "between", "long"])
+    slow = 1
+    for k, a in stages:
+        if k in ("re", "pr"):
+            slow *= max(1, a)
+    budget = max(6, int(body * ready_p / (slow * 1.3 + 0.5)))
+    items = []
+    def junk():
+        return (0, [rng.randrange(1 << w) for _ in range(digits0)], rng.randrange(2), rng.randrange(1 << mw))
+    while len(items) < budget:
+        L = rng.choice([1, 1, 2, 3, 4, 6])
+        txid = rng.randrange(1 << mw)
+        # streams without Valid cannot pause inside a packet; with Valid (v) they can
+        for j in range(L):
+            if sig == "v" and j and rng.random() < 0.3:
+                items.append(junk())
+            items.append((1, [rng.randrange(1 << w) for _ in range(digits0)], 1 if j == L - 1 else 0, txid))
+        gap = 0 if pause == "none" else rng.choice([0, 1, 2]) if pause == "between" else rng.choice([0, 5, 9])
+        items += [junk() for _ in range(gap)]
+    lines = []
+    for i in range(n):
+        it = items[i] if i < len(items) else (0, [0] * digits0, 0, 0)
+        lines.append(f"P {it[0]} {'.'.join(str(x) for x in it[1])} {it[2]} {it[3]} {r[i] if i < body else 1} -")
+    pp = 1 if rng.random() < 0.8 else 0
+    header = (f"C {cid} w={w} mw={mw} min={digits0} chain={','.join(toks) or '-'} hold=1 polite=1 pp={pp} eopg=0 sig={sig} prod=seq "
+              f"n={n} vk=sig_{sig}_{pause} rk=ready{int(ready_p * 100)}")
+    return dict(header=header, plan=lines)
+
+
+def gen_sig_cases(seed, tiername, tag, count, n):
+    rng = random.Random(f"C16/{seed}/{tiername}/{tag}")
+    cases = []; i = 0
+    # RsPacketStream through reduceWidth / widthReduce and the register stages at 100 / 60 / 25 % readiness
+    for toks, d0 in ((["re2"], 2), (["re3"], 3), (["re4"], 4), (["pr2"], 2), (["pr4"], 4), (["rd", "re2"], 2), (["re2", "rd"], 2), (["rd", "re3", "dl2"], 6),
+                     (["rd"], 1), (["rb"], 1), (["dl3"], 2), (["rd", "re2", "re2"], 4), (["dl1", "pr3"], 3)):
+        for rp in (1.0, 0.6, 0.25):
+            cases.append(gen_sig_case(rng, f"{tag}{i}", n, "rs", tokens=toks, digits0=d0, ready_p=rp)); i += 1
+    for toks, d0 in ((["rd"], 1), (["rb"], 2), (["dl2"], 1), (["ex2"], 1), (["px2"], 1), (["rd", "ex3", "dl1"], 1), (["px4", "rd"], 2)):
+        cases.append(gen_sig_case(rng, f"{tag}{i}", n, "v", tokens=toks, digits0=d0)); i += 1
+    for toks, d0 in ((["rd"], 1), (["rb"], 2), (["dl3"], 1), (["rd", "rb"], 3)):
+        cases.append(gen_sig_case(rng, f"{tag}{i}", n, "s", tokens=toks, digits0=d0)); i += 1
+    while len(cases) < count:
+        cases.append(gen_sig_case(rng, f"{tag}{i}", n, rng.choice(["rs", "rs", "rs", "v", "s"]))); i += 1
+    return cases
+
+
 def gen_expose_cases(seed, tiername, n):
     """single Packet.h widthReduce stages on shapes where its Empty/EmptyBits output was wrong before 32e913f
     (narrow beat not a power of two bits wide, or more than two digits)"""
@@ -576,6 +664,11 @@ def parse_ev(line):
     lt = lhs.split(); rt = rhs.split()
     _, v, d, e, m, r, ctl = lt[:7]
     rin, vo, po, eo, mo = rt[:5]
+    if "/" in rt[-1]:
+        # streams without Valid (sig=rs|s): first field is SOP; rhs = rin valid() payload eop meta sop raw_sop/raw_eop
+        raw = rt[-1].split("/")
+        return dict(v=v == "1", d=tuple(int(x) for x in d.split(".")), e=e == "1", m=int(m), r=r == "1", ctl=ctl,
+                    rin=rin, vo=vo, po=po, eo=eo, mo=mo, eb=None, ebo=None, so=rt[5], raw_sop=raw[0], raw_eop=raw[1])
     if len(lt) == 9:
         # stream with ByteEnable + Error: a digit of the oracle is the pair (byte, its enable bit), the meta word (txid, error)
         be = lt[7]
@@ -609,6 +702,9 @@ def oracle_case(params, evlines):
         obs[K_XREADY] += 1
         return None, st, obs
     expose = False   # (the shapes of the former widthReduce Empty/EmptyBits defect, fixed in 32e913f, are ordinary cases now)
+    framed = params.get("sig") in ("rs", "s")      # no Valid signal: a beat is on offer from sop until its eop is transferred
+    in_inside = out_inside = False
+    busy = []
     tin, tout = [], []
     tout_cycle = []
     prev = None
@@ -620,6 +716,23 @@ def oracle_case(params, evlines):
         if e["rin"] not in "01" or e["vo"] not in "01":
             return dict(event=idx, what="undefined handshake signal (ready_in / valid_out)", line=line), st, obs
         vo = e["vo"] == "1"; rin = e["rin"] == "1"
+        if framed:
+            st["sop_in"] += 1 if e["v"] else 0
+            e["v"] = in_inside or e["v"]                      # what valid MEANS at the input
+            if e["raw_sop"] not in "01" or (e["raw_eop"] not in "01" and (out_inside or e["raw_sop"] == "1")):
+                return dict(event=idx, what="undefined sop / eop on the output of a stream without Valid", line=line), st, obs
+            offered_out = out_inside or e["raw_sop"] == "1"    # ... and at the output, from the framing signals alone
+            if vo != offered_out:
+                return dict(event=idx, what=f"the library's valid(out) accessor says {int(vo)} but by the framing (inside a packet={out_inside}, sop={e['raw_sop']}) a beat is "
+                            f"{'on offer' if offered_out else 'not on offer'} -- valid of a Sop/Eop stream must be 'inside a packet or sop', independent of ready", line=line,
+                            context=evlines[max(0, idx - 3):idx + 1]), st, obs
+            if vo and e["so"] != ("0" if out_inside else "1"):
+                return dict(event=idx, what=f"sop(out)={e['so']} on a beat that is {'not ' if out_inside else ''}the first of its packet", line=line), st, obs
+            if e["v"] and rin:
+                in_inside = not e["e"]
+            if vo and e["r"]:
+                out_inside = e["raw_eop"] != "1"
+        busy.append(bool(e["v"]) or not e["r"] or "1" in e["ctl"])
         if vo and (("X" in e["po"] and not has_px) or e["eo"] not in "01" or "X" in e["mo"]):
             return dict(event=idx, what="valid output beat with undefined payload / eop / meta", line=line), st, obs
         if vo and e.get("beo") is not None:
@@ -669,9 +782,8 @@ def oracle_case(params, evlines):
             obs["hold_break_nonconformant_producer"] += 1
     # transfer sequence
     idle_tail = 0
-    for l in reversed(evlines):
-        pe = parse_ev(l)
-        if pe["v"] or not pe["r"] or "1" in pe["ctl"]:
+    for b_ in reversed(busy):
+        if b_:
             break
         idle_tail += 1
     drained = idle_tail >= 2 * info["cap"] + 8
@@ -807,7 +919,7 @@ def compare(res, by_id, agg, mismatches, oracle_viol, xlines, samples):
         agg["depth_hist"][len(stages)] += 1
         agg["pattern_hist"][f"valid={p.get('vk', '?')} ready={p.get('rk', '?')}"] += 1
         agg["flag_hist"][f"hold={p.get('hold')} polite={p.get('polite')} pp={p.get('pp')} aligned_eop={'1' if p.get('eopg', '0') != '0' else '0'} "
-                         f"emptybits={p.get('eb', '0')} producer={p.get('prod', 'cycle')}"] += 1
+                         f"emptybits={p.get('eb', '0')} byteenable={p.get('be', '0')} signature={p.get('sig', 'rv')} producer={p.get('prod', 'cycle')}"] += 1
         h = hashlib.sha1((p.get("chain", "") + "\n" + "\n".join(evs)).encode()).hexdigest()
         agg["hash"].add(h)
         src = by_id.get(p["id"])
@@ -822,7 +934,11 @@ def compare(res, by_id, agg, mismatches, oracle_viol, xlines, samples):
                 if len(mevs) != len(evs):
                     mismatches.append(dict(case=hline, event=min(len(mevs), len(evs)), observed="<%d lines>" % len(evs), expected="<%d lines>" % len(mevs), src=src))
                 else:
-                    for i, (a, b) in enumerate(zip(evs, mevs)):
+                    if p.get("sig") in ("rs", "s"):
+                        evs_cmp = [x.rsplit(" ", 1)[0] for x in evs]      # the raw sop/eop column is not produced by the model
+                    else:
+                        evs_cmp = evs
+                    for i, (a, b) in enumerate(zip(evs_cmp, mevs)):
                         if a != b:
                             mismatches.append(dict(case=hline, event=i, observed=a, expected=b, context=evs[max(0, i - 6):i + 1], src=src))
                             break
@@ -914,9 +1030,9 @@ def main():
 
     # ---------------- generated cases (tie + oracle)
     if tiername == "quick":
-        ntie, nfifo, npkt, npkteb, nbe, ncyc = 1500, 150, 500, 400, 500, 200
+        ntie, nfifo, npkt, npkteb, nbe, nsig, ncyc = 1500, 150, 500, 400, 500, 400, 200
     else:
-        ntie, nfifo, npkt, npkteb, nbe, ncyc = 15000, 1500, 5000, 4000, 5000, 360
+        ntie, nfifo, npkt, npkteb, nbe, nsig, ncyc = 15000, 1500, 5000, 4000, 5000, 4000, 360
     run_batch(gen_cases(seed, tiername, "tie", ntie, ncyc), "tie")
     # chains containing strm::fifo: no Coq machine -> independent oracle only
     run_batch(gen_cases(seed, tiername, "fifo", nfifo, ncyc, allow_fifo=True), "fifo")
@@ -926,6 +1042,8 @@ def main():
     run_batch(gen_pkt_cases(seed, tiername, "pkteb", npkteb, ncyc, True), "pkteb")
     # single widthReduce stages on the shapes on which its Empty/EmptyBits output used to be wrong (fixed: 32e913f)
     run_batch(gen_expose_cases(seed, tiername, ncyc), "pkteb_expose")
+    # the other stream signatures: Ready+Sop+Eop without Valid (derived valid()), Valid-only, Sop/Eop-only
+    run_batch(gen_sig_cases(seed, tiername, "sig", nsig, ncyc), "sig")
     # streams with ByteEnable + Error through every stage kind (ratios 3 / 4, 2- and 4-byte narrow beats)
     run_batch(gen_be_cases(seed, tiername, "be", nbe, ncyc), "be")
 
@@ -1032,6 +1150,8 @@ def main():
         "Packet.h matchWidth cannot be instantiated (Packet.h:798 calls in.width() on the Stream object; reported, not repaired): harness token pm<t> is a stand-in that makes the same three-way choice on in->width() and calls the real widthExtend / widthReduce; the model's matchD mirrors that choice",
         "excluded from generation and listed as observations: (a) widthExtend ratio 1 on a stream with EmptyBits (DesignCheck 'missmatching operands size'); (b) regDownstreamBlocking combinationally in front of widthExtend (or, with EmptyBits, widthReduce): ready(in) reads eop/emptyBits of a register without reset value, the simulation stays X from power-up (X-pessimism, harmless in hardware); (c) widthExtend | widthReduce on EmptyBits streams of some non power of two widths (9b->27b->9b): widthReduce's `bitsLeft - zext(emptyBits(in))` rejects the wider EmptyBits that widthExtend produces (elaboration error, no behavioural defect)",
         "packet family: the producer sends whole packets (prod=seq) with idle slots directly in front of the last beat of a packet / in front of one-beat packets / everywhere / nowhere while the consumer is always or mostly ready; emptyBits values are digit aligned (multiples of w)",
+        "other stream signatures (harness sig=rs|v|s): RsPacketStream (Ready, Sop, Eop, no Valid), VPacketStream (no Ready), SPacketStream (Sop, Eop). For rs / s the observation interface is the library's derived accessor valid(out) (pinned out) plus the raw sop/eop of the output; the oracle decides independently from the framing whether a beat is on offer (from sop until its eop is transferred) and requires the accessor to agree in every cycle, sop to sit on exactly the first beat of each packet, and the usual transfer / hold / drain rules with the derived valid at the input. Model: StreamRs.v (rs_flags = the flag register, inpkt = the specification, rsCycles supplies the derived valid to the unchanged stage machines); output sop of the model run is the framing of its own output transfers",
+        "stage kinds per signature are what the library accepts: regReady / regDecouple / strm::fifo / stall assign valid(...) and do not compile without a Valid signal; utils.h extendWidth turns an Rs stream into a different type (adds Valid); Packet.h widthExtend on a stream without Valid offers partial wide beats (sop is high while the group is still incomplete) -- not generated; after Packet.h widthReduce the sop signal has lost its reset value, so later register stages power up with undefined sop and the derived valid is X until the first packet has ended (seen with pr2,rd,dl3) -- pr is only generated as the last stage of an rs chain; Sop as an additional meta signal of Valid-carrying streams is not exercised",
         "strm::fifo is a black box for the Coq part (C15 owns its machine); here it is covered by the list oracle and the hold rule only",
         "reference simulator semantics (registers, reset, clock edges) are taken as the meaning of the generated circuit (C01/C04 cover them); values are sampled before each rising edge",
         "liveness is proved for the register stages (regDownstream, regDownstreamBlocking, regReady, regDecouple, delay n) and checked by the drain phase of every generated case for all chains",
